@@ -35,8 +35,15 @@ PROP = "C13"
 # --------------------------------------------------------------------------------------
 # (b) state digest
 # --------------------------------------------------------------------------------------
-def module_digest():
-    """Digest of all data reachable from the globals of every loaded pyubx2.* module."""
+TABLE_MODULES = ("pyubx2.ubxtypes_", "pyubx2.ubxvariants")
+
+
+def module_digest(scope="tables"):
+    """Digest of the data reachable from module globals of pyubx2.  scope='tables': the shared
+    message-definition / configuration tables and the variant selectors (what the property says must
+    stay untouched); scope='other': every other pyubx2 module (reader, message, helpers, wrapper) -
+    a change there is reported in the evidence, not as a violation (a cache is legitimate as long as
+    results do not change, which the history differential decides)."""
     h = hashlib.blake2b(digest_size=16)
     seen = {}
     nodes = [0]
@@ -102,6 +109,9 @@ def module_digest():
 
     for name in sorted(sys.modules):
         if name == "pyubx2" or name.startswith("pyubx2."):
+            is_table = name.startswith(TABLE_MODULES)
+            if (scope == "tables") != is_table:
+                continue
             m = sys.modules[name]
             feed(f"M:{name}")
             for k in sorted(vars(m)):
@@ -138,6 +148,10 @@ class FdCapture:
             f.close()
 
 
+CLSID_OF = {}
+FULL_LABELS = set()
+
+
 def _inspect(m):
     return (str(m), repr(m), m.identity, m.serialize().hex(), m.length, m.msgmode)
 
@@ -152,18 +166,23 @@ def build_events():
                 "SET:MGA-GPS-EPH", "SET:MGA-INI-TIME-UTC", "GET:MGA-ACK-DATA0", "GET:NAV-HPPOSLLH", "SET:CFG-MSG", "POLL:CFG-MSG", "GET:ACK-ACK",
                 "GET:INF-NOTICE", "GET:MON-VER", "SET:CFG-NVS", "POLL:CFG-TP5", "GET:RXM-SFRBX"):
         chosen += [e for e in ents if e.label == lab]
-    for e in chosen:
+    chosen_labels = {e.label for e in chosen}
+    FULL_LABELS.update(chosen_labels)
+    for e in ents:
+        full = e.label in chosen_labels
         pl = C.build_payload(e, lambda x: 2, 2, lambda i: (7 * i + 1) % 251)
         if pl is None:
             continue
         if L.special_of(e.mode, e.clsid) == "cfgval":
             pl = pl[:4] + (0x20910001).to_bytes(4, "little") + b"\x05" + (0x40520001).to_bytes(4, "little") + b"\x00\xc2\x01\x00"
         fr = ref.frame(e.clsid[0], e.clsid[1], pl)
-        for pbf in (1, 0):
+        for pbf in (1, 0) if full else (1,):
             ev[f"parse:{e.label}:pbf={pbf}"] = (lambda fr=fr, mode=e.mode, pbf=pbf: _inspect(UBXReader.parse(fr, msgmode=mode, parsebitfield=pbf)))
         if K.route_kwargs(e) is not None:
             ev[f"build:{e.label}"] = (lambda e=e: _inspect(K.build_kw(e, {n: 2 for n in C._size_fields(e.pdict)})))
-        ev[f"setpoll:{e.label}"] = (lambda fr=fr: _inspect(UBXReader.parse(fr, msgmode=3)))
+        if full:
+            ev[f"setpoll:{e.label}"] = (lambda fr=fr: _inspect(UBXReader.parse(fr, msgmode=3)))
+        CLSID_OF[e.label] = e.clsid.hex()
     ev["config_set"] = lambda: _inspect(UBXMessage.config_set(1, 0, [("CFG_UART1_BAUDRATE", 9600), (0x40530001, 115200)]))
     ev["config_del"] = lambda: _inspect(UBXMessage.config_del(2, 1, ["CFG_UART1_BAUDRATE", 0x40530001]))
     ev["config_poll"] = lambda: _inspect(UBXMessage.config_poll(0, 0, ["CFG_UART1_BAUDRATE", 0x40530001]))
@@ -239,41 +258,94 @@ def probe_names(ev):
     return [k for k in ev if k.startswith(("parse:", "build:", "config_", "helpers", "fail:kw", "fail:bad_checksum", "read:q=1"))][:60]
 
 
-_LOG = []  # every event applied in this process, in order (a violation's replay is this log)
-_FIRST = {}  # event name -> first result observed in this process
-_D0 = [None, 0]
+# --------------------------------------------------------------------------------------
+# (b) histories: every history is built from the pristine import state in a forked child
+# --------------------------------------------------------------------------------------
+import pickle
 
 
-def apply_event(name, acc, digest=False):
-    """Apply one event of the alphabet: fd capture, result vs first result, optional state digest."""
+def in_fork(fn, *args):
+    """Run fn(*args) in a forked child of this (pristine) process and return its picklable result.
+    The caller never applies a library event itself, so every fork starts from the import state."""
+    r, w = os.pipe()
+    pid = os.fork()
+    if pid == 0:
+        try:
+            os.close(r)
+            try:
+                out = ("ok", fn(*args))
+            except BaseException as e:  # noqa: BLE001
+                import traceback
+                out = ("err", traceback.format_exc())
+            with os.fdopen(w, "wb") as f:
+                pickle.dump(out, f)
+        finally:
+            os._exit(0)
+    os.close(w)
+    with os.fdopen(r, "rb") as f:
+        data = f.read()
+    os.waitpid(pid, 0)
+    st, val = pickle.loads(data)
+    if st != "ok":
+        raise engine.Broken(f"forked history failed:\n{val}")
+    return val
+
+
+def run_history(hist, digest=True):
+    """(child) apply the events of hist in order; returns per-event results / fd output and the final digests."""
     ev = events()
-    if _D0[0] is None:
-        _D0[0], _D0[1] = module_digest()
-    with FdCapture() as cap:
-        res = run_event(ev[name])
-    _LOG.append([name, bool(digest)])
-    acc.transitions += 1
-    short = name.split(":pbf")[0]
-    if cap.out[0] or cap.out[1]:
-        acc.violation(f"writes_to_stdout_or_stderr|{short}", {"kind": "history", "log": list(_LOG)}, f"stdout={cap.out[0][:80]!r} stderr={cap.out[1][:80]!r}")
-    if name not in _FIRST:
-        _FIRST[name] = res
-    elif res != _FIRST[name]:
-        acc.violation(f"result_depends_on_history|{short}", {"kind": "history", "log": list(_LOG)}, f"{res!r:.150} vs first {_FIRST[name]!r:.150}")
-        _FIRST[name] = res
+    results, fds = [], []
+    for n in hist:
+        with FdCapture() as cap:
+            res = run_event(ev[n])
+        results.append(res)
+        fds.append((cap.out[0][:120], cap.out[1][:120]))
+    out = {"results": results, "fd": fds}
     if digest:
-        d1, nodes = module_digest()
+        out["tables"], out["nodes"] = module_digest("tables")
+        out["other"] = module_digest("other")[0] if len(hist) == 1 else None
+    return out
+
+
+_REF = {}
+
+
+def ref_result(name):
+    """Result of an event applied alone to the pristine import state."""
+    if name not in _REF:
+        _REF[name] = in_fork(run_history, (name,), False)["results"][0]
+    return _REF[name]
+
+
+def judge_history(hist, acc, digest=True):
+    out = in_fork(run_history, tuple(hist), digest)
+    acc.evaluations += 1
+    acc.transitions += len(hist)
+    viol = []
+    for i, n in enumerate(hist):
+        short = n.split(":pbf")[0]
+        if out["fd"][i][0] or out["fd"][i][1]:
+            viol.append((f"writes_to_stdout_or_stderr|{short}", f"after {list(hist[:i])}: stdout={out['fd'][i][0]!r} stderr={out['fd'][i][1]!r}"))
+        want = ref_result(n)
+        if out["results"][i] != want:
+            prev = hist[i - 1].split(":pbf")[0] if i else "-"
+            viol.append((f"result_depends_on_history|{short}|after={prev}", f"history {list(hist[: i + 1])}: {out['results'][i]!r:.140} vs alone {want!r:.140}"))
+    if digest:
         acc.extra["digests"] += 1
-        acc.extra["digest_nodes"] = max(acc.extra["digest_nodes"], nodes)
-        if d1 != _D0[0]:
-            acc.violation(f"module_state_changed|{short}", {"kind": "history", "log": list(_LOG)}, "deep digest of pyubx2 module state differs after this event")
-            _D0[0] = d1  # judge later events against the new state
-            return False
-    return True
+        acc.extra["digest_nodes"] = max(acc.extra["digest_nodes"], out["nodes"])
+        if out["tables"] != D_IMPORT[0]:
+            viol.append((f"definition_tables_changed|{hist[-1].split(':pbf')[0]}", f"deep digest of the definition/config tables differs after history {list(hist)}"))
+        if out["other"] is not None and out["other"] != D_IMPORT[1]:
+            acc.note("non_table_module_state_changed_after(not a violation)", hist[-1].split(":pbf")[0])
+        acc.states.add(out["tables"])
+    for key, detail in viol:
+        acc.violation(key, {"kind": "history", "events": list(hist)}, detail)
+    acc.outcomes[("history", len(hist), "self-loop" if not viol else "violation")] += 1
+    return viol
 
 
 def history_block(first_names, depth, acc, sub=None):
-    """All histories first + (depth-1 more events); digest after each history, then the probe set."""
+    """All histories first + (depth-1 more events) + the probe set, each from the pristine state."""
     ev = events()
     names = sorted(ev)
     probes = probe_names(ev)
@@ -281,15 +353,34 @@ def history_block(first_names, depth, acc, sub=None):
     for first in first_names:
         for tail in tails:
             hist = (first,) + tail
-            ok = True
-            for i, n in enumerate(hist):
-                ok = apply_event(n, acc, digest=(i == len(hist) - 1)) and ok
-            acc.evaluations += 1
             if depth > 1:
-                for p in probes:
-                    apply_event(p, acc)
-            acc.outcomes[("history", depth, "self-loop" if ok else "state-changed")] += 1
-    acc.states.add(_D0[0])
+                hist = hist + tuple(probes)
+            judge_history(hist, acc, digest=True)
+
+
+def pair_block(pairs, acc):
+    """Adjacent ordered pairs (a, b), each from the pristine state; b's result vs b alone."""
+    for a, b in pairs:
+        judge_history((a, b), acc, digest=False)
+
+
+def same_clsid_pairs():
+    ev = events()
+    groups = {}
+    for n in sorted(ev):
+        parts = n.split(":")
+        if parts[0] in ("parse", "build", "setpoll") and len(parts) >= 3:
+            lab = parts[1] + ":" + parts[2]
+            cid = CLSID_OF.get(lab)
+            if cid:
+                groups.setdefault(cid, []).append(n)
+    out = []
+    for cid, ns in sorted(groups.items()):
+        for a in ns:
+            for b in ns:
+                if a != b:
+                    out.append((a, b))
+    return out
 
 
 # --------------------------------------------------------------------------------------
@@ -427,9 +518,11 @@ def replay_inproc(case):
             msgs = immut_messages(e)
         for m in msgs:
             check_immutable(m, lab, acc)
+    elif k == "immut_digest":
+        _eval_block(("immut", case["indices"], case["extra"]), acc)
     elif k == "history":
-        for n, dg in case["log"]:
-            apply_event(n, acc, digest=dg)  # same digest schedule as the original run (re-basing included)
+        D_IMPORT[0], D_IMPORT[1] = module_digest("tables")[0], module_digest("other")[0]
+        judge_history(tuple(case["events"]), acc, digest=True)
     elif k == "sched" and case.get("digest"):
         d0, _ = module_digest()
         with FdCapture() as capt:
@@ -438,7 +531,7 @@ def replay_inproc(case):
         if capt.out[0] or capt.out[1]:
             acc.violation(f"writes_to_stdout_or_stderr|threads|{'+'.join(case['program'])}", case, "")
         if module_digest()[0] != d0:
-            acc.violation(f"module_state_changed|threads|{'+'.join(case['program'])}", case, "")
+            acc.violation(f"definition_tables_changed|threads|{'+'.join(case['program'])}", case, "")
     elif k == "sched":
         ops = thread_ops()
         names = case["program"]
@@ -453,11 +546,27 @@ def replay_inproc(case):
 
 
 def eval_block(block, acc):
+    """Workers never touch the library themselves: immutability and schedule blocks run in a forked
+    child (pristine module state at block start), history blocks fork once per history."""
+    if block[0] in ("immut", "sched"):
+        sub = in_fork(_eval_in_child, block)
+        acc.merge(sub)
+    else:
+        _eval_block(block, acc)
+
+
+def _eval_in_child(block):
+    sub = engine.Acc()
+    _eval_block(block, sub)
+    return sub
+
+
+def _eval_block(block, acc):
     kind = block[0]
     if kind == "immut":
         ents = C.entries()
         d_before = module_digest()[0]
-        clean = d_before == D_IMPORT[0]
+        clean = True
         for i in block[1]:
             e = ents[i]
             if not e.routed or C.invalid_types(e.pdict):
@@ -471,7 +580,9 @@ def eval_block(block, acc):
         if not clean:
             acc.extra["blocks_started_from_polluted_state(not judged for state change)"] += 1
         elif module_digest()[0] != d_before:
-            acc.violation("module_state_changed|immutability_probe", {"kind": "immut", "entry": ents[block[1][0]].label, "name": "x", "op": "set", "digest": True}, "")
+            acc.violation("definition_tables_changed|immutability_probe", {"kind": "immut_digest", "indices": list(block[1]), "extra": bool(block[2])}, "")
+    elif kind == "pairs":
+        pair_block(block[1], acc)
     elif kind == "hist":
         history_block(block[1], block[2], acc, block[3] if len(block) > 3 else None)
         if len(acc.samples) < 1:
@@ -481,7 +592,7 @@ def eval_block(block, acc):
         first = block[4] if len(block) > 4 else None
         shard = tuple(block[5]) if len(block) > 5 else None
         d0, _ = module_digest()
-        clean = d0 == D_IMPORT[0]
+        clean = True
         with FdCapture() as capt:
             st, info = explore_program(tuple(names), bound, acc, cap, first, shard)
         if capt.out[0] or capt.out[1]:
@@ -489,29 +600,36 @@ def eval_block(block, acc):
         if not clean:
             acc.extra["blocks_started_from_polluted_state(not judged for state change)"] += 1
         elif module_digest()[0] != d0:
-            acc.violation(f"module_state_changed|threads|{'+'.join(names)}", {"kind": "sched", "program": list(names), "digest": True, "bound": bound, "cap": cap, "first": first, "shard": list(shard) if shard else None}, "")
+            acc.violation(f"definition_tables_changed|threads|{'+'.join(names)}", {"kind": "sched", "program": list(names), "digest": True, "bound": bound, "cap": cap, "first": first, "shard": list(shard) if shard else None}, "")
         acc.extra[f"both_in_walk:{'+'.join(names)}"] += int(info["both"])
         acc.extra["max_points"] = max(acc.extra["max_points"], info["pts"])
 
 
-D_IMPORT = [None]
+D_IMPORT = [None, None]
 
 
 def run_tier(tier, t0):
     q = tier == "quick"
     ents = C.entries()
     idx = list(range(len(ents)))
-    D_IMPORT[0] = module_digest()[0]  # the parent never applies an event: this is the import state
+    D_IMPORT[0], D_IMPORT[1] = module_digest("tables")[0], module_digest("other")[0]  # the parent never applies an event: import state
     blocks = [("immut", idx[i::32], i == 0) for i in range(32)]
     ev = events()
     names = sorted(ev)
-    blocks += [("hist", names[i::16], 1) for i in range(16)]
+    blocks += [("hist", names[i::48], 1) for i in range(48)]
+    sp = same_clsid_pairs()
+    if not q:
+        pe = [n for n in names if n.startswith("parse:") and n.endswith("pbf=1")]
+        sp = sp + [(a, b) for a in pe for b in pe if a != b]
+    blocks += [("pairs", sp[i::64]) for i in range(64) if sp[i::64]]
     sub = [n for n in names if n.startswith(("parse:GET:NAV-SAT", "build:SET:ESF-MEAS", "parse:POLL:CFG-TP5-TPX", "config_set", "fail:kw_group", "fail:midwalk_array", "read:q=1:mode=0", "parse:SET:RXM-PMP-V0", "build:SET:CFG-DAT-NUM", "helpers"))]
     if q:
         # length-2 histories: every event followed by every event of the sub-alphabet
-        blocks += [("hist", [n], 2, sub) for n in names]
+        firsts = [n for n in names if not (n.startswith(("parse:", "build:")) and n.split(":pbf")[0].split(":", 1)[1] not in FULL_LABELS)]
+        blocks += [("hist", [n], 2, sub) for n in firsts]
     else:
-        blocks += [("hist", [n], 2) for n in names]
+        firsts = [n for n in names if not (n.startswith(("parse:", "build:")) and n.split(":pbf")[0].split(":", 1)[1] not in FULL_LABELS)]
+        blocks += [("hist", [n], 2, firsts) for n in firsts]
         blocks += [("hist", [n], 3, sub) for n in sub]
     ops = sorted(thread_ops())
     pairs = list(itertools.combinations_with_replacement(ops, 2))
@@ -532,20 +650,17 @@ def run_tier(tier, t0):
                     blocks.append(("sched", [a, b], 2, 8000, first, (k, K)))
         for tr in list(itertools.combinations(ops, 3))[:20]:
             blocks.append(("sched", list(tr), 1, None))
-    # history blocks get worker processes of their own, so that a worker's event log is the
-    # complete record of everything applied since the import state (replayable in a fresh process)
-    acc = engine.sweep([b for b in blocks if b[0] == "hist"], eval_block)
-    acc = engine.sweep([b for b in blocks if b[0] != "hist"], eval_block, acc)
+    acc = engine.sweep(blocks, eval_block)
     nr = sum(1 for e in ents if e.routed and not C.invalid_types(e.pdict))
     walk_pairs = [f"{a}+{b}" for a, b in pairs if all(x in ("parse_gnss_2", "parse_gnss_1", "build_gnss", "esf_meas", "tp5_set", "fail_build") for x in (a, b))]
     engine.finish(
         PROP, tier, acc, t0, replay_case,
         rule=(
             f"(a) one parsed message per routed definition x 2 views + null-payload + nominal: every name in dir(msg)+__dict__+fresh names x {{set, delete}}; "
-            f"(b) {len(names)} events (parse/build/SETPOLL of every variant route and special case, config helpers, all helpers, 20 failing calls, stream reads under 3 policies x 3 modes): "
+            f"(b) {len(names)} events (parse and keyword build of every routed definition, SETPOLL and raw-bitfield parses of every variant route and special case, config helpers, all helpers, 20 failing calls, stream reads under 3 policies x 3 modes): "
             f"every event from the import state with a deep digest of all pyubx2 module data (states = distinct digests, must be 1), all histories of length 2 "
             + (f"over a {len(sub)}-event sub-alphabet as second event" if q else f"and length 3 over a {len(sub)}-event sub-alphabet")
-            + f" with probe-set comparison, fd 1/2 captured around every event; (c) all {len(pairs)} unordered pairs of {len(ops)} colliding operations as real threads under the cooperative scheduler, "
+            + f" with probe-set comparison, all {len(sp)} adjacent ordered pairs of events that share a class/ID" + ("" if q else " and all ordered pairs of parse events") + ", fd 1/2 captured around every event; (c) all {len(pairs)} unordered pairs of {len(ops)} colliding operations as real threads under the cooperative scheduler, "
             + ("every schedule with <= 1 preemption" if q else "every schedule with <= 1 preemption, <= 2 preemptions (capped at 8,000 executions per shard = 64,000 per pair, caps listed), 20 triples at bound 1")
             + ". transitions = events applied + scheduling points executed; distinct_nontrivial = outcome classes"
         ),
